@@ -1,7 +1,8 @@
 (** C20 — benchmark models implement their documented estimators.
     Property theorems only; models in Api/Bench.v, proofs in Api/BenchProofs.v, non-vacuity in Api/BenchExamples.v. *)
-From Coq Require Import QArith List Bool Arith Permutation Sorted.
-From Leaspy Require Import Base.QAux Api.Bench Api.BenchProofs Api.BenchExamples Api.BenchTie.
+From Coq Require Import String QArith List Bool Arith Permutation Sorted.
+From Leaspy Require Import Base.QAux Api.Bench Api.BenchProofs Api.BenchExamples Api.BenchTie Api.BenchNumpy Api.BenchFit Api.BenchFitProofs Api.BenchSrcTie.
+From LeaspyGen Require Import GenC20.
 Import ListNotations.
 
 (** 'last': the row of a visit whose age is >= every age; determined by that, hence independent of the row
@@ -183,3 +184,133 @@ Proof.
   now apply lme_trajectory_line.
 Qed.
 Print Assumptions C20_line.
+
+(* ==================================================================================== *)
+(** * Source-level tie (extension): the definitions REGENERATED from the python source on every run
+      (coq/gen/GenC20.v, by harness/translate/c20_bench.py) are the model the theorems above speak about *)
+
+(** [_get_feature_values] as written in the code (which reduction per prediction type, index sort by age with
+    [reverse=True], first non-NaN by argmax, fancy indexing) is [predict], for every rectangular table ... *)
+Theorem C20_src_feature_values : forall k d t, wf d t -> gen_feature_values k d t = predict k d t.
+Proof. exact gen_feature_values_eq. Qed.
+Print Assumptions C20_src_feature_values.
+
+(** ... and for every table whatsoever for 'last', 'max', 'mean' *)
+Theorem C20_src_feature_values_any : forall k d t, k <> LastKnown -> gen_feature_values k d t = predict k d t.
+Proof. exact gen_feature_values_eq_any. Qed.
+Print Assumptions C20_src_feature_values_any.
+
+(** hence the regenerated code itself meets the order-free specifications *)
+Theorem C20_src_estimators : forall d t, wf d t -> t <> [] ->
+  (exists row, gen_feature_values Last d t = Ok row /\ is_last t row) /\
+  (forall k P, (k = LastKnown /\ P = is_last_known) \/ (k = Max /\ P = is_max) \/ (k = Mean /\ P = is_mean) ->
+     exists vs, gen_feature_values k d t = Ok vs /\ length vs = d /\
+       forall j, (j < d)%nat -> exists v, nth_error vs j = Some v /\ P (col j t) v /\ (v = None <-> all_missing (col j t))).
+Proof. exact gen_estimators. Qed.
+Print Assumptions C20_src_estimators.
+
+(** [ConstantModel.compute_individual_trajectory]: one individual, the value vector at every requested age *)
+Theorem C20_src_constant_trajectory : forall vals ages,
+  gen_constant_trajectory vals ages = [trajectory vals ages].
+Proof. exact gen_constant_trajectory_eq. Qed.
+Print Assumptions C20_src_constant_trajectory.
+
+(** [_get_individual_random_effects_and_residuals] as written in the code (NaN removal, normalisation of the ages with the
+    stored mean / std, design [1, age], residual w.r.t. the fixed effects, closed form or generic formula) returns the dict of
+    the model's [lme_personalize], error for error, for every parameter set and every history *)
+Theorem C20_src_lme_personalize : forall s p obs,
+  gen_lme_personalize s p obs = rmap (re_dict s) (lme_personalize s p obs).
+Proof. exact gen_lme_personalize_eq. Qed.
+Print Assumptions C20_src_lme_personalize.
+
+(** [_generic_get_random_effects] as written: [inv(Z'Z + cov_inv) (Z' resid)], with two columns and with one *)
+Theorem C20_src_generic : forall r c,
+  (forall Z, length Z = length r -> gen_generic_re_2 r Z c = blup2 Z r c) /\
+  (forall z c1, length z = length r -> res_Qeq (gen_generic_re_1 r z c1) (blup1 z r c1)).
+Proof. intros r c. split; [intros Z; apply gen_generic_re_2_eq|intros z c1; apply gen_generic_re_1_eq]. Qed.
+Print Assumptions C20_src_generic.
+
+(** the two code paths agree: the closed form [sum(r) / (n + cov_inv)] written for the random-intercept model IS the generic
+    formula of the code specialised to Z = (1,...,1)' (same value, same error) *)
+Theorem C20_src_paths_agree : forall r c,
+  gen_intercept_re r (length r) c = intercept_re r c /\
+  res_Qeq (gen_intercept_re r (length r) c) (gen_generic_re_1 r (repeat 1 (length r)) c).
+Proof. intros r c. split; [apply gen_intercept_re_eq|apply gen_paths_agree]. Qed.
+Print Assumptions C20_src_paths_agree.
+
+(** [LMEModel.compute_individual_trajectory] as written is [lme_trajectory] (hence the straight line of [C20_line]) *)
+Theorem C20_src_lme_trajectory : forall s p ip a b ages,
+  py_dict_get ip "random_intercept" = Ok a -> (s = true -> py_dict_get ip "random_slope_age" = Ok b) -> ages <> [] ->
+  gen_lme_trajectory s p ip ages = lme_trajectory p (a, if s then b else 0) ages.
+Proof. exact gen_lme_trajectory_eq. Qed.
+Print Assumptions C20_src_lme_trajectory.
+
+(** [LMEFitAlgorithm._run] as written stores what the model of the storing step says, under the keys of [fit_table] *)
+Theorem C20_src_fit_store :
+  (forall ages f, gen_fit_store_2 ages f = lme_fit_store_2 ages f) /\
+  (forall ages f, gen_fit_store_1 ages f = lme_fit_store_1 ages f) /\ gen_fit_table = fit_table.
+Proof. split; [exact gen_fit_store_2_eq|split; [exact gen_fit_store_1_eq|exact gen_fit_table_eq]]. Qed.
+Print Assumptions C20_src_fit_store.
+
+(** an accepted fit stores a TWO-SIDED inverse of [cov_re / noise^2] (and the fixed effects, covariance, noise variance and
+    normalisation it was given) ... *)
+Theorem C20_src_fit_inverse : forall ages f s,
+  gen_fit_store_2 ages f = Accepted s ->
+  let U := mscale2 (/ st_noise_var s) (st_cov_re s) in
+  meq2 (mmul2 (st_cov_inv s) U) mid2 /\ meq2 (mmul2 U (st_cov_inv s)) mid2 /\
+  st_fe s = sm_fe f /\ st_cov_re s = sm_cov_re f /\ st_noise_var s = sm_scale f /\
+  st_ages_mean s = np_mean ages /\ st_ages_var s = np_var ages.
+Proof. exact gen_fit_2_inverse. Qed.
+Print Assumptions C20_src_fit_inverse.
+
+Theorem C20_src_fit_inverse_1 : forall ages f s,
+  gen_fit_store_1 ages f = Accepted s ->
+  let u := / st_noise_var s * st_cov_re s in
+  st_cov_inv s * u == 1 /\ u * st_cov_inv s == 1 /\
+  st_fe s = sm_fe f /\ st_cov_re s = sm_cov_re f /\ st_noise_var s = sm_scale f.
+Proof. exact gen_fit_1_inverse. Qed.
+Print Assumptions C20_src_fit_inverse_1.
+
+(** ... and a singular covariance is REFUSED ([inv], not [pinv]); a regular one is accepted *)
+Theorem C20_src_fit_refuses_singular : forall ages,
+  (forall f, (det2 (sm_cov_re_unscaled_2 f) == 0 -> gen_fit_store_2 ages f = Refused) /\
+             (~ sm_scale f == 0 -> det2 (sm_cov_re f) == 0 -> gen_fit_store_2 ages f = Refused) /\
+             (~ det2 (sm_cov_re_unscaled_2 f) == 0 -> exists s, gen_fit_store_2 ages f = Accepted s)) /\
+  (forall f, (sm_cov_re f == 0 -> gen_fit_store_1 ages f = Refused) /\
+             (~ sm_cov_re_unscaled_1 f == 0 -> exists s, gen_fit_store_1 ages f = Accepted s)).
+Proof. intros ages. split; intros f; [apply gen_fit_2_refuses|apply gen_fit_1_refuses]. Qed.
+Print Assumptions C20_src_fit_refuses_singular.
+
+(** precision form = covariance form: for an invertible D the n x n system [(Z D Z' + I) w = r] HAS a solution whenever the code's
+    formula is defined, and for EVERY solution [w] the covariance form [D Z' w] (= [D Z'(Z D Z' + I)^-1 r]) is what the code
+    computes, [(Z'Z + D^-1)^-1 Z' r]; two random effects and one *)
+Theorem C20_cov_form :
+  (forall Z r D Dinv b, inv2 D = Ok Dinv -> blup2 Z r Dinv = Ok b ->
+     (exists w, cov_system2 Z D w r) /\
+     (forall w, cov_system2 Z D w r -> fst (cov_form2 Z D w) == fst b /\ snd (cov_form2 Z D w) == snd b)) /\
+  (forall z r d b, ~ d == 0 -> blup1 z r (/ d) = Ok b ->
+     (exists w, cov_system1 z d w r) /\ (forall w, cov_system1 z d w r -> cov_form1 z d w == b)).
+Proof.
+  split.
+  - intros Z r D Dinv b HD Hb. split; [eexists; eapply cov_system2_solvable; eassumption|].
+    intros w. now apply cov_form2_eq_precision with (Dinv := Dinv).
+  - intros z r d b Hd Hb. split; [eexists; eapply cov_system1_solvable; eassumption|].
+    intros w. now apply cov_form1_eq_precision.
+Qed.
+Print Assumptions C20_cov_form.
+
+(** on the boundary D = 0 (an effect of zero variance) the covariance form gives 0 — there is no precision form there,
+    and the fit refuses such a covariance (theorem above) *)
+Theorem C20_cov_form_zero : forall Z z w,
+  (fst (cov_form2 Z (Mat2 0 0 0 0) w) == 0 /\ snd (cov_form2 Z (Mat2 0 0 0 0) w) == 0) /\ cov_form1 z 0 w == 0.
+Proof. intros Z z w. split; [apply cov_form2_zero|apply cov_form1_zero]. Qed.
+Print Assumptions C20_cov_form_zero.
+
+(** composition over the regenerated code: fit accepted, then the generic formula with the stored inverse = the conditional
+    mean in covariance form with D = cov_re / noise^2 *)
+Theorem C20_src_fit_then_personalize : forall ages f s Z r b w,
+  gen_fit_store_2 ages f = Accepted s -> gen_generic_re_2 r Z (st_cov_inv s) = Ok b -> length Z = length r ->
+  let D := mscale2 (/ st_noise_var s) (st_cov_re s) in
+  cov_system2 Z D w r -> fst (cov_form2 Z D w) == fst b /\ snd (cov_form2 Z D w) == snd b.
+Proof. exact gen_fit_then_generic. Qed.
+Print Assumptions C20_src_fit_then_personalize.
